@@ -25,6 +25,7 @@ pub enum Mode {
 	C02,
 	C03,
 	C09,
+	C07,
 	C12,
 	C13,
 	C14,
@@ -36,6 +37,7 @@ fn mode_of(p: &str) -> Option<Mode> {
 		"C02" => Mode::C02,
 		"C03" => Mode::C03,
 		"C09" => Mode::C09,
+		"C07" => Mode::C07,
 		"C12" => Mode::C12,
 		"C13" => Mode::C13,
 		"C14" => Mode::C14,
@@ -75,6 +77,12 @@ fn spec_for(prop: &str, _tier: Tier) -> Option<Spec> {
 			.require("images_needing_replay", 10)
 			.budget(40, 600)
 			.assume("crash part of C09; restart / growth interleavings without crashes are decided by the stepping engine"),
+		Mode::C07 => Spec::new("C07", "exploration", "Crash part of C07 (the stepping engine decides the rest in the same check): the crash simulator's histories restricted to the layouts with a reference-counted column (hash + counts, btree + counts, the mixed three-column layout), crash instants as in C02; recovery must give a prefix state S_m INCLUDING the counts where they are observable (hash columns: value iteration yields every live value with its count; btree columns: a key is readable iff its count is positive), and a continuation (further sets / references / dereferences, drain, clean restart) must follow the count model re-based at S_m.")
+			.require("images", 100)
+			.require("images_inside_step", 30)
+			.require("images_needing_replay", 10)
+			.budget(30, 500)
+			.assume("crash part of C07; counts under stepping and clean restarts are decided by the stepping engine"),
 		Mode::C14 => Spec::new("C14", "exploration", &format!("{}Crash images as in C02; after recovery, a continuation workload, a clean restart and a drain, the independent structural checker (pvfsck) validates the files against the recovered prefix state plus the continuation (free lists, slot classification, index<->value bijection, btree order/depth, tree reference counts).", common))
 			.require("images", 100)
 			.require("fsck_after_recovery", 50)
@@ -130,6 +138,8 @@ fn shard(ctx: &Ctx, rep: &mut Report) {
 		let variant = ctx.shard as u64 + i * ctx.nshards as u64;
 		// C09: only the index-growth layout (kind 5); the flavour still walks all four values
 		let variant = if mode == Mode::C09 { (variant & !7) | 5 } else { variant };
+		// C07: only the layouts with a reference-counted column (kinds 1, 6, 4)
+		let variant = if mode == Mode::C07 { (variant & !7) | [1u64, 6, 4][(i % 3) as usize] } else { variant };
 		// C16: the index-growth layout (files created and dropped by the pipeline: the richest
 		// set of fallible file operations) every fourth case instead of every eighth
 		let variant = if mode == Mode::C16 && i % 3 == 1 { (variant & !7) | 5 } else { variant };
@@ -523,7 +533,7 @@ fn crash_child(mode: Mode, rec: &Recorded, dir: &Path, act: usize, phase: &'stat
 	let events_before = interpose::tracker().map(|t| t.counts.clone()).unwrap_or_default();
 	let files_before: Vec<String> = dbutil::list_files(dir).into_iter().map(|f| f.0).collect();
 	let lo = match mode {
-		Mode::C02 | Mode::C09 | Mode::C14 => 0,
+		Mode::C02 | Mode::C09 | Mode::C07 | Mode::C14 => 0,
 		_ => rec.synced_before[act],
 	};
 	let hi = rec.commits_before[act] + if matches!(rec.acts[act], Act::Commit(_)) && phase == "boundary" { 1 } else { 0 };
